@@ -110,7 +110,6 @@ Proof.
     + cbn. discriminate.
   - sid3; auto.
   - sid3; auto.
-  - sid3; auto.
   - sid_nil.
   - destruct (removeN_NoDup s open A) as [A' _]. sid3; [exact A'| |].
     + intros x Hx. apply B. eapply removeN_In; exact Hx.
